@@ -184,18 +184,18 @@ def handle (op : String) (a r : Json) : Except String Reply := do
         pure { m := jObj [("unmodelled", Json.str "diverges")] }
       else
         let (o, _, ret) := runAt H me.id me.cfg p
-        if hasRules a then
-          -- C12 oracle: the implementation's observation must be what the rules dictate under the
-          -- specification's reading (first matching rule, full-match regex) with the standard hop rule
-          match specNodes.find? fun n => n.id == atN with
-          | none => pure { m := o.json ret }
-          | some sme =>
-            let (so, _, sret) := runAt stdHops sme.id sme.cfg p
-            let holds := canonEq r (so.json sret)
-            pure { m := o.json ret, prop := some holds,
-                   why := if holds then "" else "packet not treated as the first matching rule dictates",
-                   sig := if holds then "" else "C12/eval/first-match-full-regex" }
-        else pure { m := o.json ret }
+        -- oracle: the observation must be what the specification model (standard hop rule, strict
+        -- rule parsing, full-match regex; the model the property theorems are about) prescribes
+        match specNodes.find? fun n => n.id == atN with
+        | none => pure { m := o.json ret }
+        | some sme =>
+          let (so, _, sret) := runAt stdHops sme.id sme.cfg p
+          let holds := canonEq r (so.json sret)
+          pure { m := o.json ret, prop := some holds,
+                 why := if holds then "" else "one handleMessageData call does not do what the specification prescribes for this packet "
+                          ++ "(expected " ++ (so.json sret).compress ++ ")",
+                 sig := if holds then "" else (if hasRules a then "pkt/handle/differs-from-spec/with-firewall-rules"
+                                              else "pkt/handle/differs-from-spec") }
     | "walk" =>
       let (o, tx, ret) := runAt H me.id me.cfg p
       let (o2, exhausted) := pump H nodes 3000 tx o
@@ -209,13 +209,22 @@ def handle (op : String) (a r : Json) : Except String Reply := do
       let okOnce := dataDeliv.length ≤ 1
       let okAddr := dataDeliv.all fun d =>
         (do pure ((← getHex d "node") == p.toNode && (← getHex d "svc") == p.toSvc)).toOption.getD false
-      let holds := okBound && okOnce && okAddr
+      -- and the whole network history must be the specification's
+      let okSpec := match specNodes.find? fun n => n.id == atN with
+        | none => true
+        | some sme =>
+          let (so, stx, sret) := runAt stdHops sme.id sme.cfg p
+          let (so2, sexh) := pump stdHops specNodes 3000 stx so
+          canonEq r (so2.json sret [("steps_exhausted", Json.bool sexh)])
+      let holds := okBound && okOnce && okAddr && okSpec
       pure { m := m, prop := some holds,
              why := if !okBound then s!"datagram relayed {dataRelays} times with hop budget {p.ttl}"
                     else if !okOnce then "datagram delivered more than once"
-                    else if !okAddr then "datagram delivered at a listener other than the addressee" else "",
+                    else if !okAddr then "datagram delivered at a listener other than the addressee"
+                    else if !okSpec then "the network history of this send differs from the specification's (reach iff d <= h, expiry reporter, notices)" else "",
              sig := if !okBound then "C10/relayed-more-than-budget" else if !okOnce then "C02/delivered-twice"
-                    else if !okAddr then "C02/misdelivered" else "" }
+                    else if !okAddr then "C02/misdelivered"
+                    else if !okSpec then (if hasRules a then "pkt/walk/differs-from-spec/with-firewall-rules" else "pkt/walk/differs-from-spec") else "" }
     | _ => throw s!"bad-op pkt {op}"
 
 end Receptor.Drive.Pkt
